@@ -281,7 +281,7 @@ INT_ARRAYS = [['np', 'i', [0, 1]], ['np', 'i', [1, 0, 1]], ['np', 'i', [-1, 0]],
 BOOL_ARRAYS = [['np', 'b', [True, False]], ['np', 'b', [True, True]], ['np', 'b', [False, False]], ['np', 'b', [True, False, True]],
                ['np', 'b', [False, False, True]], ['np', 'b', [[True, False, True], [False, True, True]]],
                ['np', 'b', [[True, False], [False, True]]], L([False, True])]
-FN_INDICES = [A('ielem', (), 'i', 'idx', 0), A('ielem', (), 'i', 'nidx', 1), A('ielem', (2,), 'i', 'idx', 0), A('const', (2,), 'i', 'idx', 1), A('const', (), 'i', 'nidx', 0)]
+FN_INDICES = [A('ielem', (), 'i', 'idx', 0), A('ielem', (), 'i', 'nidx', 1), A('ielem', (2,), 'i', 'idx', 0), A('const', (2,), 'i', 'idx', 1), A('const', (), 'i', 'nidx', 0), A('ielem', (2,), 'i', 'zidx', 0), A('const', (2,), 'i', 'zidx', 1)]
 
 
 def _item_value(it):
@@ -560,7 +560,8 @@ def gen_take(fname, tier):
         for axis in [None] + list(range(-nd - 1, nd + 1)):
             length = int(numpy.prod(s)) if axis is None else s[axis] if -nd <= axis < nd else 1
             idxs = [L(0), L(-1), L(length), L(-length - 1), ['np', 'i', [length - 1, 0]], ['np', 'i', [[0, -1], [-length, 0]]], L([0, 0, -1]),
-                    ['np', 'i', [0, length]], ['np', 'i', []], A('ielem', (), 'i', 'idx', 0), A('ielem', (2,), 'i', 'nidx', 1), A('const', (2, 2), 'i', 'idx', 0)]
+                    ['np', 'i', [0, length]], ['np', 'i', []], A('ielem', (), 'i', 'idx', 0), A('ielem', (2,), 'i', 'nidx', 1), A('const', (2, 2), 'i', 'idx', 0),
+                    A('ielem', (2,), 'i', 'zidx', 1), A('const', (3,), 'i', 'zidx', 0), A('ielem', (), 'i', 'zidx', 0)]
             for ix in idxs:
                 if ix[0] == 'arr' and length < 2:
                     continue
